@@ -8,6 +8,8 @@ package props
 // the wire, so it doubles as the witness for the C03/C05/C06 oracles.
 
 import (
+	"encoding/json"
+	"crypto/hmac"
 	"crypto/ecdh"
 	"crypto/rand"
 	"crypto/sha256"
@@ -291,6 +293,12 @@ type peerDev struct {
 	BitmaskOutside                bool
 	ClaimLevelAuth, ClaimLevelEnc string // levels the scripted client advertises
 	Methods                       string
+	// scripted TOKEN (AKEP2) client
+	Token     string // full header.payload.signature token the scripted client holds
+	TokClaim  string // identity claimed in steps 1 and 3 ("" = the token's sub, or "nobody@nowhere")
+	TokProof  string // "" honest; "empty", "wrong", "for-other-id" (proof computed over another identity than claimed)
+	TokRBEcho string // "" honest; "empty", "wrong"
+	TokTrail  bool   // step 3 carries a trailing byte
 }
 
 type peerOutcome struct {
@@ -302,6 +310,8 @@ type peerOutcome struct {
 	AppFromE                       []byte // application message received from E after the handshake
 	AppFromEProtected              bool
 	AppErr                         error
+	TokServerProofOK               bool // the server's step-2 proof verified under the key derived from the token
+	TokStep2Status                 int64
 	ClientAd, ServerAd, PostAuthAd *wireAd
 	Log                            []string
 	Canary                         string
@@ -551,6 +561,17 @@ func scriptedClient(dev peerDev, out *peerOutcome) func(*netsim.End) error {
 				if sel == 0 {
 					return fmt.Errorf("peer: server rejected all methods")
 				}
+				if sel == 2048 && dev.Token != "" {
+					if err := scriptedAKEP2(p, dev, out); err != nil {
+						return err
+					}
+					out.AuthExchangeCompleted = true
+					out.MethodRun = "TOKEN"
+					if _, err := p.recvMsg(); err != nil { // exchangeKey
+						return err
+					}
+					break
+				}
 				if sel != 2 {
 					return fmt.Errorf("peer: server selected %#x which this peer cannot run", sel)
 				}
@@ -602,6 +623,94 @@ func scriptedClient(dev peerDev, out *peerOutcome) func(*netsim.End) error {
 		out.AppFromEProtected = p.encOn && len(p.PlainAfterKey) == 0 && p.ProtIn >= 2
 		return nil
 	}
+}
+
+// scriptedAKEP2 runs the three TOKEN messages as a client, with the deviations
+// of dev; written from the protocol description, shares no code with cedar.
+func scriptedAKEP2(p *peerConn, dev peerDev, out *peerOutcome) error {
+	parts := strings.Split(dev.Token, ".")
+	if len(parts) != 3 {
+		return fmt.Errorf("peer: token needs three parts")
+	}
+	hp := parts[0] + "." + parts[1]
+	sig, _ := base64.RawURLEncoding.DecodeString(parts[2])
+	k, _ := akepKeys(sig, hp)
+	claim := dev.TokClaim
+	if claim == "" {
+		claim = "nobody@nowhere"
+		if pb, err := base64.RawURLEncoding.DecodeString(parts[1]); err == nil {
+			var c map[string]any
+			if json.Unmarshal(pb, &c) == nil {
+				if sub, ok := c["sub"].(string); ok && sub != "" {
+					claim = sub
+				}
+			}
+		}
+	}
+	idstr := func(v string) []byte {
+		return append(append(refcodec.EncInt(int64(len(v))), v...), 0)
+	}
+	raw := func(v []byte) []byte { return append(refcodec.EncInt(int64(len(v))), v...) }
+	ra := make([]byte, 256)
+	_, _ = rand.Read(ra)
+	m1 := refcodec.EncInt(0)
+	m1 = append(m1, idstr(claim)...)
+	m1 = append(append(m1, hp...), 0)
+	m1 = append(m1, raw(ra)...)
+	if err := p.sendMsg(m1, false); err != nil {
+		return err
+	}
+	m2, err := p.recvMsg()
+	if err != nil {
+		return err
+	}
+	r := &wireReader{b: m2}
+	out.TokStep2Status = r.int()
+	rdID := func() string { r.int(); return r.str() }
+	rdRaw := func() []byte {
+		n := int(r.int())
+		if n < 0 || n > len(r.b) {
+			n = 0
+		}
+		v := r.b[:n]
+		r.b = r.b[n:]
+		return v
+	}
+	a2, b2 := rdID(), rdID()
+	raEcho, rb, smac := rdRaw(), rdRaw(), rdRaw()
+	_ = raEcho
+	out.TokServerProofOK = out.TokStep2Status == 0 && hmac.Equal(smac, akepMAC(k, []byte(a2), []byte{' '}, []byte(b2), []byte{0}, ra, rb))
+	p.logf("akep2 step2: status=%d A=%q B=%q rb=%d proof-ok=%v", out.TokStep2Status, a2, b2, len(rb), out.TokServerProofOK)
+	proofID := claim
+	if dev.TokProof == "for-other-id" {
+		proofID = a2 // whatever identity the server echoed
+	}
+	proof := akepMAC(k, []byte(proofID), []byte{0}, rb)
+	switch dev.TokProof {
+	case "empty":
+		proof = nil
+	case "wrong":
+		proof = append([]byte(nil), proof...)
+		proof[0] ^= 1
+	}
+	echo := rb
+	switch dev.TokRBEcho {
+	case "empty":
+		echo = nil
+	case "wrong":
+		echo = append([]byte(nil), rb...)
+		if len(echo) > 0 {
+			echo[0] ^= 1
+		}
+	}
+	m3 := refcodec.EncInt(0)
+	m3 = append(m3, idstr(claim)...)
+	m3 = append(m3, raw(echo)...)
+	m3 = append(m3, raw(proof)...)
+	if dev.TokTrail {
+		m3 = append(m3, 0x41)
+	}
+	return p.sendMsg(m3, false)
 }
 
 func sortedKeys(m map[string]string) []string {
